@@ -209,6 +209,10 @@ func (m *Method) compileOutput() error {
 			m.Response = out
 
 		case KindService:
+			if ref := out.Ref; ref != nil && ref.Service != nil && !ref.Service.Sub {
+				return fmt.Errorf("invalid output, %q is a service, a method can only return a subservice",
+					out.Name)
+			}
 			m.Subservice = out
 
 		default:
